@@ -3,24 +3,36 @@
 //! Request lines (see lean/C2paModel/Model/C29.lean), every string hex-encoded:
 //!   C29 sanitize   p=<str>                         -> ok:<str> | bad
 //!   C29 uri        uri=<str> label=<str|none>      -> ok:<str> | bad
-//!   C29 archive    name=<str>                      -> ignored | ok:<key> | bad   (Builder::with_archive)
+//!   C29 archive    name=<str> am=<str|none>,…      -> ignored | ok:<store>=<key>+… | bad   (Builder::with_archive;
+//!                                                     store = b (builder) | <ingredient index>; am = active_manifest per ingredient)
 //!   C29 export     claim=<str> label=<str>         -> ok:<rel path> | bad        (Reader::to_folder)
 //!   C29 normalize  p=<str>                         -> <str>
 //!   C29 components p=<str>                         -> R|C|P|N<str>,…       (std::path, trusted base)
 //!   C29 parent     p=<str>                         -> none | some:<str>    (std::path, trusted base)
 //!   C29 <fsop> <ctx> id=<str> [data=<str>]
-//!     <ctx>  = pre=<case dir> cwd=<dir> tree=<node;node…|-> base=<str> root=<str|none>
+//!     <ctx>  = pre=<case dir> cwd=<dir> tree=<node;node…|-> base=<str> root=<str|none> mem=<id>:<bytes>,…|-
 //!     node   = d:<rel>:- | f:<rel>:<content> | l:<rel>:<target>      (rel to the case dir)
 //!     fsop   = canon   -> none | some:<abs>                      (fs::canonicalize, trusted base)
 //!              resolve -> ok:<str> | bad | io                    (resolve_within_root)
-//!              get     -> found:<content> | nf
+//!              get     -> found:<content> | nf:<payload of ResourceNotFound>
 //!              ws      -> ok:<content> | nf | io
 //!              exists  -> true | false
 //!              pfi     -> none | some:<str>
 //!              add     -> ok|bad|io diff=<abs>=<d|f:content|l:target>,… | -
+//!              tofolder claim=<str> label=<str> data=<str>      (Reader::to_folder(base); the contents of
+//!                         manifest_store.json / manifest_data.c2pa are canonicalised to "J" / "C")
+//!                      -> ok|bad|io diff=…
 //!
 //! The trees are created for real below `common::scratch`; the tree description sent to the
 //! model is a snapshot of what is on disk immediately before the operation.
+//!
+//! Sandbox rule: every file-system case runs inside its own *case area* below the scratch
+//! directory, and before the implementation is called `stays_in` walks the path a check-free
+//! implementation would use (`base.join(id)`, following the links of the tree like the kernel):
+//! a case is only run when even that path — every directory it would create and the final node —
+//! lies inside the case area. An escape is therefore always visible in the snapshot of the case
+//! area and can never touch anything outside the scratch directory, also when the code under
+//! test is broken (mutation runs).
 
 use std::{
     collections::BTreeMap,
@@ -107,6 +119,72 @@ fn bytes(p: &Path) -> Vec<u8> {
     p.as_os_str().as_bytes().to_vec()
 }
 
+/// hex, with `-` for the empty string (the model's `hx`)
+fn hx(b: &[u8]) -> String {
+    if b.is_empty() {
+        "-".to_string()
+    } else {
+        hex(b)
+    }
+}
+
+/// The sandbox guard. Where would `path` (relative paths start at `cwd`) lead a check-free
+/// `create_dir_all(parent)` + `write`, following the symbolic links of the tree the way the kernel
+/// does (names that do not exist are taken as they would be created)? `true` iff every step of the
+/// way is an ancestor of `area` or inside it, and the end is inside `area`. Independent of the
+/// code under test.
+fn stays_in(area: &Path, cwd: &Path, path: &[u8]) -> bool {
+    use std::collections::VecDeque;
+    let comps = |b: &[u8]| -> Vec<Vec<u8>> {
+        b.split(|c| *c == b'/').filter(|s| !s.is_empty() && *s != b".").map(|s| s.to_vec()).collect()
+    };
+    let mut cur: PathBuf = if path.first() == Some(&b'/') { PathBuf::from("/") } else { cwd.to_path_buf() };
+    let mut pending: VecDeque<Vec<u8>> = comps(path).into();
+    let mut links = 0;
+    let ok_here = |c: &Path| c.starts_with(area) || area.starts_with(c);
+    if !ok_here(&cur) {
+        return false;
+    }
+    while let Some(c) = pending.pop_front() {
+        if c == b".." {
+            cur.pop();
+        } else {
+            let next = cur.join(pb(&c));
+            match fs::symlink_metadata(&next) {
+                Ok(md) if md.file_type().is_symlink() => {
+                    links += 1;
+                    if links > 40 {
+                        return true; // ELOOP for the kernel too: nothing is reached through this path
+                    }
+                    let t = fs::read_link(&next).map(|t| bytes(&t)).unwrap_or_default();
+                    if t.first() == Some(&b'/') {
+                        cur = PathBuf::from("/");
+                    }
+                    for x in comps(&t).into_iter().rev() {
+                        pending.push_front(x);
+                    }
+                }
+                Ok(md) if md.is_dir() => cur = next,
+                Ok(_) => {
+                    // a regular file: overwritten if it is the end of the path, ENOTDIR otherwise
+                    return next.starts_with(area);
+                }
+                Err(_) => {
+                    // does not exist: would be created
+                    if !next.starts_with(area) {
+                        return false;
+                    }
+                    cur = next;
+                }
+            }
+        }
+        if !ok_here(&cur) {
+            return false;
+        }
+    }
+    cur.starts_with(area)
+}
+
 /// One configured store over one case directory.
 #[derive(Clone)]
 struct Cfg {
@@ -116,11 +194,17 @@ struct Cfg {
     base: Vec<u8>,
     root: Option<Vec<u8>>,
     kind: &'static str,
+    /// resources put into the in-memory map before the base path is set
+    mem: Vec<(String, Vec<u8>)>,
 }
 
 impl Cfg {
     fn store(&self) -> ResourceStore {
         let mut rs = ResourceStore::new();
+        for (k, v) in &self.mem {
+            // no base path yet: goes to the in-memory map, whatever the identifier looks like
+            let _ = rs.add(k.clone(), v.clone());
+        }
         rs.set_base_path(pb(&self.base));
         if let Some(r) = &self.root {
             rs.set_resource_root(pb(r));
@@ -134,13 +218,21 @@ impl Cfg {
 
     fn ctx(&self, snap: &Snap) -> String {
         // `snap` is a snapshot of `self.area`
+        // (the map is a HashMap keyed by identifier: a later entry with the same identifier
+        // replaces the earlier one; `gen_mem` never repeats an identifier)
+        let mem = if self.mem.is_empty() {
+            "-".to_string()
+        } else {
+            self.mem.iter().map(|(k, v)| format!("{}:{}", hx(k.as_bytes()), hx(v))).collect::<Vec<_>>().join(",")
+        };
         format!(
-            "pre={} cwd={} tree={} base={} root={}",
+            "pre={} cwd={} tree={} base={} root={} mem={}",
             hex(&bytes(&self.area)),
             hex(&bytes(&self.d)),
             tree_desc(snap),
             hex(&self.base),
-            self.root.as_ref().map(|r| hex(r)).unwrap_or_else(|| "none".to_string())
+            self.root.as_ref().map(|r| hex(r)).unwrap_or_else(|| "none".to_string()),
+            mem
         )
     }
 }
@@ -221,7 +313,7 @@ fn gen_tree(rng: &mut Rng, d: &Path, counter: &mut u64) -> Tree {
                     }
                     10 => (*rng.pick(NAMES)).to_string(), // sibling: chain, loop or dangling
                     11 => name.to_string(),               // self loop
-                    // (never further up than three levels: the case area is three levels above `d`)
+                    // (never further up than three levels: the case area is five levels above `d`)
                     12 => (*rng.pick(&[".", "..", "../..", "../../..", "./", "a/", ".//a", "../out/../root"])).to_string(),
                     13 => format!("{}/../{}", rel_from(&parent, rng.pick(&other_side).as_str()), rng.pick(NAMES)),
                     14 => format!("{}/", rel_from(&parent, rng.pick(&all).as_str())),
@@ -236,7 +328,7 @@ fn gen_tree(rng: &mut Rng, d: &Path, counter: &mut u64) -> Tree {
     t
 }
 
-fn gen_cfg(rng: &mut Rng, d: &Path, t: &Tree) -> Cfg {
+fn gen_cfg(rng: &mut Rng, area: &Path, d: &Path, t: &Tree) -> Cfg {
     let ds = bytes(d);
     let cat = |tail: &str| {
         let mut v = ds.clone();
@@ -274,8 +366,7 @@ fn gen_cfg(rng: &mut Rng, d: &Path, t: &Tree) -> Cfg {
         }
         _ => (cat("/root"), Some(cat("/root")), "explicit-root"),
     };
-    let area = d.parent().and_then(|p| p.parent()).and_then(|p| p.parent()).unwrap_or(d).to_path_buf();
-    Cfg { area, d: d.to_path_buf(), base, root, kind }
+    Cfg { area: area.to_path_buf(), d: d.to_path_buf(), base, root, kind, mem: vec![] }
 }
 
 const WEIRD: &[&str] = &["...", "..a", "a..", " ", "%2e%2e", "..%2f", "é", "a\\b", "..\\", "\\", "a:b", "-", "~"];
@@ -333,7 +424,8 @@ fn gen_id(rng: &mut Rng, d: &Path, snap: &Snap, base_rel: &str) -> String {
             let n = rng.range(1, 4);
             let mut id = (0..n).map(|_| gen_seg(rng)).collect::<Vec<_>>().join("/");
             if rng.chance(1, 20) {
-                id = format!("/{id}");
+                // absolute, but inside the case area (the guard `stays_in` drops what is not)
+                id = format!("{}/{}/{id}", d.display(), rng.pick(&["root", "out", "."]));
             }
             if rng.chance(1, 12) {
                 id.push('/');
@@ -391,7 +483,9 @@ fn do_read(cfg: &Cfg, op: &str, id: &str) -> Obs {
     let rs = cfg.store();
     match op {
         "get" => match rs.get(id) {
-            Ok(c) => Obs { reply: format!("found:{}", hex(&c)), full: format!("found:{}", hex(&c)), content: Some(c.to_vec()) },
+            Ok(c) => Obs { reply: format!("found:{}", hx(&c)), full: format!("found:{}", hx(&c)), content: Some(c.to_vec()) },
+            // the payload of ResourceNotFound is part of the answer (it is an identifier or a path, not a message)
+            Err(Error::ResourceNotFound(w)) => Obs { reply: format!("nf:{}", hx(w.as_bytes())), full: format!("nf:{w}"), content: None },
             Err(e) => Obs { reply: err_class(&e).to_string(), full: format!("{}:{e}", err_class(&e)), content: None },
         },
         "ws" => {
@@ -399,7 +493,7 @@ fn do_read(cfg: &Cfg, op: &str, id: &str) -> Obs {
             match rs.write_stream(id, &mut out) {
                 Ok(_) => {
                     let c = out.into_inner();
-                    Obs { reply: format!("ok:{}", hex(&c)), full: format!("ok:{}", hex(&c)), content: Some(c) }
+                    Obs { reply: format!("ok:{}", hx(&c)), full: format!("ok:{}", hx(&c)), content: Some(c) }
                 }
                 Err(e) => {
                     // an I/O error text may legitimately name the OS error; only the class is compared
@@ -471,21 +565,27 @@ fn read_case(run: &mut Run, cfg: &Cfg, snap: &Snap, op: &str, id: &str) -> (Stri
     let joined = pb(&cfg.base).join(id);
     if let Some(c) = &obs.content {
         // the bytes handed out must be those of a regular file really below the real root
-        let ok = match &real_root {
-            None => false,
-            Some(rr) => snap.iter().any(|(k, n)| {
-                matches!(n, Node::File(fc) if fc == c) && under(&cfg.area.join(pb(k)), rr)
-            }),
-        };
+        let in_mem = cfg.mem.iter().any(|(k, v)| k == id && v == c);
+        let ok = in_mem
+            || match &real_root {
+                None => false,
+                Some(rr) => snap.iter().any(|(k, n)| {
+                    matches!(n, Node::File(fc) if fc == c) && under(&cfg.area.join(pb(k)), rr)
+                }),
+            };
+        if in_mem {
+            run.count("read:from-memory");
+        }
         if !ok {
             run.fail(idx, "read-outside-root", format!("{op}({id:?}) returned {:?}, not the content of any file below the real root {:?}", String::from_utf8_lossy(c), real_root));
         }
     }
     if op == "exists" && obs.reply == "true" {
-        let ok = match (&real_root, fs::canonicalize(&joined)) {
-            (Some(rr), Ok(t)) => under(&t, rr),
-            _ => false,
-        };
+        let ok = cfg.mem.iter().any(|(k, _)| k == id)
+            || match (&real_root, fs::canonicalize(&joined)) {
+                (Some(rr), Ok(t)) => under(&t, rr),
+                _ => false,
+            };
         if !ok {
             run.fail(idx, "exists-outside-root", format!("exists({id:?}) = true but the real location is not below the real root"));
         }
@@ -536,6 +636,10 @@ fn diff_str(d: &Path, before: &Snap, after: &Snap) -> (String, Vec<PathBuf>) {
 }
 
 fn add_case(run: &mut Run, cfg: &Cfg, id: &str, data: &[u8], class: &str) {
+    if !safe(cfg, id) {
+        run.count("sandbox:add-skipped");
+        return;
+    }
     let area_before = snapshot(&cfg.area);
     let real_root_before = fs::canonicalize(cfg.root_path()).ok();
     let res = guarded({
@@ -592,7 +696,7 @@ fn f7_replay(run: &mut Run, base_dir: &Path) {
         symlink(d.join("out/nonexist"), d.join("root/dl")).unwrap();
         symlink(d.join("out/nonexist/sub"), d.join("root/dl2")).unwrap();
         symlink("in", d.join("root/il")).unwrap();
-        let cfg = Cfg { area: d.clone(), d: d.clone(), base: bytes(&d.join("root")), root: None, kind: "f7" };
+        let cfg = Cfg { area: d.clone(), d: d.clone(), base: bytes(&d.join("root")), root: None, kind: "f7", mem: vec![] };
         add_case(run, &cfg, id, format!("W-f7-{i}").as_bytes(), "write-escape-symlink");
     }
     // a base path with `..` after a directory that does not exist yet: nothing below root/ resolves
@@ -603,20 +707,272 @@ fn f7_replay(run: &mut Run, base_dir: &Path) {
         fs::create_dir_all(d.join("out")).unwrap();
         symlink(d.join("out"), d.join("root/link")).unwrap();
         symlink(d.join("out/nonexist"), d.join("root/dl")).unwrap();
-        let cfg = Cfg { area: d.clone(), d: d.clone(), base: bytes(&d.join(base)), root: Some(bytes(&d.join("root"))), kind: "f7" };
+        let cfg = Cfg { area: d.clone(), d: d.clone(), base: bytes(&d.join(base)), root: Some(bytes(&d.join("root"))), kind: "f7", mem: vec![] };
         add_case(run, &cfg, id, format!("W-f7b-{i}").as_bytes(), "write-escape-symlink");
     }
     let _ = fs::remove_dir_all(&d);
 }
 
+/// The witnesses of `reads_reveal_outside_existence`, `write_stream_reveals_outside_existence`,
+/// `get_reveals_outside_existence` (`root/k -> out/s`, with and without `out/s`) and of
+/// `exists_reveals_outside_existence` (`root/k -> out/l -> root/f`, with and without `out/l`),
+/// replayed on the implementation: each operation is asked the same question on the two trees,
+/// which differ outside the root only.
+fn leak_replay(run: &mut Run, top: &Path) {
+    let d = top.join("leak");
+    for (op, chain) in [("pfi", false), ("ws", false), ("get", false), ("exists", false), ("exists", true), ("get", true)] {
+        let mut answers: Vec<String> = vec![];
+        for with_outside in [true, false] {
+            let _ = fs::remove_dir_all(&d);
+            fs::create_dir_all(d.join("root")).unwrap();
+            fs::create_dir_all(d.join("out")).unwrap();
+            if chain {
+                fs::write(d.join("root/f"), b"inside-f").unwrap();
+                symlink(d.join("out/l"), d.join("root/k")).unwrap();
+                if with_outside {
+                    symlink(d.join("root/f"), d.join("out/l")).unwrap();
+                }
+            } else {
+                symlink(d.join("out/s"), d.join("root/k")).unwrap();
+                if with_outside {
+                    fs::write(d.join("out/s"), b"SENTINEL-s").unwrap();
+                }
+            }
+            let cfg = Cfg { area: d.clone(), d: d.clone(), base: bytes(&d.join("root")), root: None, kind: "leak", mem: vec![] };
+            std::env::set_current_dir(&d).unwrap();
+            let snap = snapshot(&d);
+            let (reply, _) = read_case(run, &cfg, &snap, op, "k");
+            answers.push(reply);
+        }
+        run.count(&format!("leak-replay:{op}:{}", if answers[0] != answers[1] { "differs" } else { "same" }));
+        if answers[0] != answers[1] {
+            let idx = run.reqs.len() - 1;
+            run.fail(
+                idx,
+                "outside-existence-leak",
+                format!(
+                    "{op}(\"k\") answers {:?} with and {:?} without {} (a node outside the root; nothing else differs)",
+                    answers[0],
+                    answers[1],
+                    if chain { "the link out/l" } else { "the file out/s" }
+                ),
+            );
+        }
+    }
+    let _ = std::env::set_current_dir(top);
+    let _ = fs::remove_dir_all(&d);
+}
+
+/// One `Reader::to_folder(dest)` on the tree of `cfg` (`cfg.base` = the destination folder), with a
+/// reader holding one claim with one data box `label`. Records the case, evaluates the oracle:
+/// nothing outside the real destination folder was created or modified.
+fn tofolder_case(run: &mut Run, cfg: &Cfg, reader: c2pa::Reader, claim: &str, label: &str, data: &[u8], class: &str) {
+    // sandbox rule for the three paths a check-free implementation would write
+    let cl = claim.replace(':', "_");
+    let dest = pb(&cfg.base);
+    let worst = [
+        dest.join("manifest_store.json"),
+        dest.join("manifest_data.c2pa"),
+        dest.join(format!("{cl}/c2pa.databoxes/{label}")),
+        dest.join(label),
+    ];
+    if !worst.iter().all(|w| stays_in(&cfg.area, &cfg.d, &bytes(w))) {
+        run.count("sandbox:tofolder-skipped");
+        return;
+    }
+    let json = reader.json();
+    let before = snapshot(&cfg.area);
+    let real_before = fs::canonicalize(&dest).ok();
+    let res = guarded({
+        let dest = dest.clone();
+        std::panic::AssertUnwindSafe(move || reader.to_folder(&dest).map_err(|e| err_class(&e)))
+    });
+    let after = snapshot(&cfg.area);
+    // canonical contents: the two manifest files are "J" and "C"
+    let canon_after: Snap = after
+        .iter()
+        .map(|(k, n)| {
+            let n = match n {
+                Node::File(c) if before.get(k) == Some(n) || c == data => n.clone(),
+                Node::File(c) if c == json.as_bytes() => Node::File(b"J".to_vec()),
+                Node::File(_) => Node::File(b"C".to_vec()),
+                other => other.clone(),
+            };
+            (k.clone(), n)
+        })
+        .collect();
+    let (diff, changed) = diff_str(&cfg.area, &before, &canon_after);
+    let outcome = match &res {
+        Ok(Ok(())) => "ok",
+        Ok(Err(c)) => c,
+        Err(_) => "panic",
+    };
+    run.count(&format!("tofolder:{outcome}"));
+    run.count(&format!("tofolder-cfg:{}", cfg.kind));
+    if dest.join(&cl).ancestors().any(|a| a.is_symlink()) || dest.join("manifest_store.json").is_symlink() {
+        run.nontrivial(format!("tofolder {} {label}", cfg.ctx(&before)));
+    }
+    let idx = run.case(
+        format!(
+            "C29 tofolder {} claim={} label={} data={}",
+            cfg.ctx(&before),
+            hex(claim.as_bytes()),
+            hex(label.as_bytes()),
+            hex(data)
+        ),
+        format!("{outcome} diff={diff}"),
+    );
+    if let Err(p) = &res {
+        run.fail(idx, "panic", p.clone());
+    }
+    let real_after = fs::canonicalize(&dest).ok();
+    for c in &changed {
+        // below the real folder — or a directory created on the way to a folder that did not exist yet
+        let ok = [&real_before, &real_after].iter().any(|rr| rr.as_ref().map(|rr| under(c, rr)).unwrap_or(false))
+            || (real_before.is_none()
+                && real_after.as_ref().map(|ra| ra.starts_with(c)).unwrap_or(false)
+                && fs::symlink_metadata(c).map(|m| m.is_dir()).unwrap_or(false));
+        if !ok {
+            run.fail(idx, class, format!("to_folder({dest:?}) with data box {label:?} changed {c:?}, which is not below the real folder {real_after:?}"));
+        }
+    }
+}
+
+/// `unchecked_write_escapes` replayed on `Reader::to_folder`: symbolic links already present in the
+/// destination folder, at each of the places `to_folder` writes to.
+fn tofolder_replay(run: &mut Run, top: &Path) {
+    let d = top.join("tf");
+    for plant in 0..8 {
+        let _ = fs::remove_dir_all(&d);
+        fs::create_dir_all(d.join("dest/in")).unwrap();
+        fs::create_dir_all(d.join("out")).unwrap();
+        fs::write(d.join("out/secret"), b"SENTINEL-secret").unwrap();
+        let data = format!("X-tf-{plant}");
+        let Ok((reader, claim)) = hk::reader_with_databox("box.bin", data.as_bytes()) else { continue };
+        let cl = claim.replace(':', "_");
+        match plant {
+            0 => symlink(d.join("out"), d.join(format!("dest/{cl}"))).unwrap(),
+            1 => {
+                fs::create_dir_all(d.join(format!("dest/{cl}"))).unwrap();
+                symlink("../../out", d.join(format!("dest/{cl}/c2pa.databoxes"))).unwrap();
+            }
+            2 => {
+                fs::create_dir_all(d.join(format!("dest/{cl}/c2pa.databoxes"))).unwrap();
+                symlink(d.join("out/secret"), d.join(format!("dest/{cl}/c2pa.databoxes/box.bin"))).unwrap();
+            }
+            3 => {
+                fs::create_dir_all(d.join(format!("dest/{cl}/c2pa.databoxes"))).unwrap();
+                symlink(d.join("out/new"), d.join(format!("dest/{cl}/c2pa.databoxes/box.bin"))).unwrap();
+            }
+            4 => symlink(d.join("out/secret"), d.join("dest/manifest_store.json")).unwrap(),
+            5 => symlink(d.join("out/new.c2pa"), d.join("dest/manifest_data.c2pa")).unwrap(),
+            6 => symlink("in", d.join(format!("dest/{cl}"))).unwrap(), // stays inside: allowed
+            _ => {}                                                      // nothing planted
+        }
+        let cfg = Cfg { area: d.clone(), d: d.clone(), base: bytes(&d.join("dest")), root: None, kind: "tf-replay", mem: vec![] };
+        std::env::set_current_dir(&d).unwrap();
+        tofolder_case(run, &cfg, reader, &claim, "box.bin", data.as_bytes(), "export-escape-symlink");
+    }
+    let _ = std::env::set_current_dir(top);
+    let _ = fs::remove_dir_all(&d);
+}
+
+/// `Reader::to_folder` into a folder of the random tree of `cfg`, sometimes with a symbolic link
+/// planted where `to_folder` is going to write.
+fn tofolder_random(run: &mut Run, rng: &mut Rng, cfg: &Cfg, counter: &mut u64) {
+    let d = &cfg.d;
+    let dsnap = snapshot(d);
+    let below_root: Vec<String> = dsnap
+        .iter()
+        .filter(|(k, n)| k.starts_with(b"root/") && !matches!(n, Node::File(_)))
+        .map(|(k, _)| String::from_utf8_lossy(k).to_string())
+        .collect();
+    let dest_rel: String = match rng.below(8) {
+        0..=2 => "root".into(),
+        3 | 4 if !below_root.is_empty() => rng.pick(&below_root).clone(),
+        5 => format!("root/n{}", rng.below(3)),
+        6 => format!("root/n{}/deep", rng.below(3)),
+        _ => "root/".into(),
+    };
+    let dest = d.join(&dest_rel);
+    let mut label: String = match rng.below(8) {
+        0..=3 => (*rng.pick(NAMES)).to_string(),
+        4 => "a/b".into(),
+        5 => format!("../{}", rng.pick(NAMES)),
+        6 => format!("{}/{}", rng.pick(NAMES), rng.pick(NAMES)),
+        _ => gen_seg(rng),
+    };
+    if label.is_empty() {
+        label = "x".into();
+    }
+    *counter += 1;
+    let data = format!("X{counter}");
+    let Ok((reader, claim)) = hk::reader_with_databox(&label, data.as_bytes()) else { return };
+    let cl = claim.replace(':', "_");
+    let inside_area = fs::canonicalize(&dest).map(|r| r.starts_with(&cfg.area) && r.is_dir()).unwrap_or(false);
+    if inside_area {
+        let target: String = match rng.below(6) {
+            0 | 1 => format!("{}/out", d.display()),
+            2 => format!("{}/out/s", d.display()),
+            3 => format!("{}/out/nx{}", d.display(), rng.below(2)),
+            4 => format!("{}/root", d.display()),
+            _ => "../out".into(),
+        };
+        let first = label.split('/').find(|s| !s.is_empty() && *s != "." && *s != "..").unwrap_or("x").to_string();
+        match rng.below(12) {
+            0 | 1 => {
+                let _ = symlink(&target, dest.join(&cl));
+            }
+            2 => {
+                let _ = fs::create_dir_all(dest.join(&cl));
+                let _ = symlink(&target, dest.join(format!("{cl}/c2pa.databoxes")));
+            }
+            3 => {
+                let _ = fs::create_dir_all(dest.join(format!("{cl}/c2pa.databoxes")));
+                let _ = symlink(&target, dest.join(format!("{cl}/c2pa.databoxes/{first}")));
+            }
+            4 => {
+                let _ = symlink(&target, dest.join("manifest_store.json"));
+            }
+            5 => {
+                let _ = symlink(&target, dest.join("manifest_data.c2pa"));
+            }
+            _ => {}
+        }
+    }
+    let tcfg = Cfg { area: cfg.area.clone(), d: d.clone(), base: bytes(&dest), root: None, kind: "tofolder", mem: vec![] };
+    tofolder_case(run, &tcfg, reader, &claim, &label, data.as_bytes(), "export-outside-folder");
+}
+
+/// the tree directory `d` sits this far below its case area, so that identifiers and links may
+/// climb a few levels without leaving the area
+const DEPTH: &str = "w/x/y/z/t";
+
+/// the sandbox rule for a store operation on `id` (see `stays_in`)
+fn safe(cfg: &Cfg, id: &str) -> bool {
+    id.is_empty() || stays_in(&cfg.area, &cfg.d, &bytes(&pb(&cfg.base).join(id)))
+}
+
+/// draw identifiers until one obeys the sandbox rule
+fn gen_safe(run: &mut Run, rng: &mut Rng, cfg: &Cfg, mut g: impl FnMut(&mut Rng) -> String) -> String {
+    for _ in 0..12 {
+        let id = g(rng);
+        if safe(cfg, &id) {
+            return id;
+        }
+        run.count("sandbox:identifier-redrawn");
+    }
+    "n0".to_string()
+}
+
 fn one_tree(run: &mut Run, rng: &mut Rng, top: &Path, n: u64, counter: &mut u64) {
     // the case area `area` is what the write oracle watches; no link of the tree leads out of it
     let area = top.join(format!("c{n}"));
-    let d = area.join("w/x/t");
+    let d = area.join(DEPTH);
     let _ = fs::remove_dir_all(&area);
     fs::create_dir_all(&d).unwrap();
     let t = gen_tree(rng, &d, counter);
-    let cfg = gen_cfg(rng, &d, &t);
+    let mut cfg = gen_cfg(rng, &area, &d, &t);
     std::env::set_current_dir(&d).unwrap();
     let snap = snapshot(&area);
     let dsnap = snapshot(&d);
@@ -643,7 +999,19 @@ fn one_tree(run: &mut Run, rng: &mut Rng, top: &Path, n: u64, counter: &mut u64)
 
     // ---- read side ----
     let n_ids = rng.range(4, 9);
-    let ids: Vec<String> = (0..n_ids).map(|_| gen_id(rng, &d, &dsnap, &base_rel)).collect();
+    let ids: Vec<String> =
+        (0..n_ids).map(|_| gen_safe(run, rng, &cfg, |rng| gen_id(rng, &d, &dsnap, &base_rel))).collect();
+    // sometimes the store already holds something in memory (added before the base path was set),
+    // under one of the identifiers about to be asked for — hostile ones included
+    if rng.chance(1, 5) {
+        let k = rng.range(1, 2) as usize;
+        for i in 0..k {
+            let id = rng.pick(&ids).clone();
+            if !cfg.mem.iter().any(|(m, _)| *m == id) {
+                cfg.mem.push((id, format!("MEM-{i}").into_bytes()));
+            }
+        }
+    }
     let mut first: Vec<(String, String, (String, String))> = vec![];
     for id in &ids {
         for op in READ_OPS {
@@ -711,7 +1079,7 @@ fn one_tree(run: &mut Run, rng: &mut Rng, top: &Path, n: u64, counter: &mut u64)
     let n_adds = rng.range(2, 6);
     for _ in 0..n_adds {
         let snap_now = snapshot(&d);
-        let id = gen_add_id(rng, &d, &snap_now, &base_rel);
+        let id = gen_safe(run, rng, &cfg, |rng| gen_add_id(rng, &d, &snap_now, &base_rel));
         *counter += 1;
         let data = format!("W{counter}");
         add_case(run, &cfg, &id, data.as_bytes(), "write-outside-root");
@@ -720,6 +1088,10 @@ fn one_tree(run: &mut Run, rng: &mut Rng, top: &Path, n: u64, counter: &mut u64)
             let snap_after = snapshot(&area);
             read_case(run, &cfg, &snap_after, "get", &id);
         }
+    }
+    // ---- export: Reader::to_folder into a folder of this tree ----
+    if rng.chance(1, 2) {
+        tofolder_random(run, rng, &cfg, counter);
     }
     let _ = std::env::set_current_dir(top);
     let _ = fs::remove_dir_all(&area);
@@ -848,13 +1220,17 @@ fn pure_cases(run: &mut Run, rng: &mut Rng, n: u64) {
 // ---------------------------------------------------------------------------------------------
 // archive import and export, end to end
 
-/// One old-format (zip) builder archive with `manifest.json` and one more entry called `name`.
+/// `active_manifest` of the two ingredients of the archived definition
+const AMS: [Option<&str>; 2] = [Some("a:b"), None];
+
+/// One old-format (zip) builder archive with `manifest.json` (two ingredients) and one more entry
+/// called `name`.
 fn zip_with(name: &str) -> Option<(Vec<u8>, String)> {
     use std::io::Write;
     let mut zw = zip::ZipWriter::new(Cursor::new(Vec::<u8>::new()));
     let opt = zip::write::SimpleFileOptions::default().compression_method(zip::CompressionMethod::Stored);
     zw.start_file("manifest.json", opt).ok()?;
-    zw.write_all(br#"{"format":"","instance_id":"","ingredients":[],"assertions":[],"no_embed":false,"timestamp_manifest_labels":[]}"#).ok()?;
+    zw.write_all(br#"{"format":"","instance_id":"","ingredients":[{"title":"i0","format":"image/jpeg","active_manifest":"a:b"},{"title":"i1","format":"image/jpeg"}],"assertions":[],"no_embed":false,"timestamp_manifest_labels":[]}"#).ok()?;
     zw.start_file(name, opt).ok()?;
     zw.write_all(b"resource bytes").ok()?;
     let bytes = zw.finish().ok()?.into_inner();
@@ -870,13 +1246,21 @@ fn archive_cases(run: &mut Run, rng: &mut Rng, top: &Path, n: u64) {
     fs::create_dir_all(d.join("out")).unwrap();
     fs::write(d.join("out/s"), b"SENTINEL-s").unwrap();
     std::env::set_current_dir(d.join("root")).unwrap();
+    let am = AMS.iter().map(|a| a.map(|a| hex(a.as_bytes())).unwrap_or_else(|| "none".to_string())).collect::<Vec<_>>().join(",");
     for _ in 0..n {
         let tail = gen_path_string(rng);
-        let name = match rng.below(8) {
+        let idx = *rng.pick(&["0", "1", "2", "+1", "-0", "01", "", "x", "1x", "18446744073709551615", "18446744073709551616", " 1"]);
+        let name = match rng.below(16) {
             0 => tail.clone(),
             1 => format!("resources/{}", rng.pick(&["a.jpg", "..", ".", "", "a\\b", "../x", "x/../../y"])),
             2 => format!("resource/{tail}"),
-            _ => format!("resources/{tail}"),
+            3..=7 => format!("resources/{tail}"),
+            8 | 9 => format!("ingredients/{idx}/{tail}"),
+            10 => format!("ingredients/{idx}"),
+            11 => format!("ingredients/{idx}/{}", rng.pick(&["t.jpg", "..", ".", "", "a\\b", "x/y", "x/../../y"])),
+            12 => format!("ingredients/{tail}"),
+            13 => format!("manifests/{}", rng.pick(&["a_b", "a_b_c", "a:b", "a_", "x", "..", "", "a_b/..", "a_b/x", "a\\b"])),
+            _ => format!("manifests/{tail}"),
         };
         let Some((bytes, seen)) = zip_with(&name) else { continue };
         let before = snapshot(&d);
@@ -884,8 +1268,15 @@ fn archive_cases(run: &mut Run, rng: &mut Rng, top: &Path, n: u64) {
             c2pa::Builder::from_context(c2pa::Context::new())
                 .with_archive(Cursor::new(bytes))
                 .map(|b| {
-                    let mut ids = hk::builder_resource_ids(&b);
+                    // every identifier stored anywhere: the builder's store and each ingredient's
+                    let mut ids: Vec<(String, String)> =
+                        hk::builder_resource_ids(&b).into_iter().map(|k| ("b".to_string(), k)).collect();
                     ids.sort();
+                    for (i, ing) in b.definition.ingredients.iter().enumerate() {
+                        let mut ks: Vec<String> = ing.resources().resources().keys().cloned().collect();
+                        ks.sort();
+                        ids.extend(ks.into_iter().map(|k| (i.to_string(), k)));
+                    }
                     ids
                 })
                 .map_err(|_| ())
@@ -893,22 +1284,24 @@ fn archive_cases(run: &mut Run, rng: &mut Rng, top: &Path, n: u64) {
         let after = snapshot(&d);
         let reply = match &r {
             Ok(Ok(ids)) if ids.is_empty() => "ignored".to_string(),
-            Ok(Ok(ids)) => format!("ok:{}", ids.iter().map(|i| hex(i.as_bytes())).collect::<Vec<_>>().join("+")),
+            Ok(Ok(ids)) => format!("ok:{}", ids.iter().map(|(st, k)| format!("{st}={}", hx(k.as_bytes()))).collect::<Vec<_>>().join("+")),
             Ok(Err(())) => "bad".to_string(),
             Err(_) => "panic".to_string(),
         };
-        run.count(&format!("archive:{}", reply.split(':').next().unwrap_or("")));
+        run.count(&format!("archive:{}:{}", seen.split('/').next().unwrap_or(""), reply.split(':').next().unwrap_or("")));
         if seen.contains("..") || seen.contains('\\') {
             run.nontrivial(format!("archive {seen}"));
         }
-        let idx = run.case(format!("C29 archive name={}", hex(seen.as_bytes())), reply);
+        let idx = run.case(format!("C29 archive name={} am={am}", hex(seen.as_bytes())), reply);
         if let Err(p) = &r {
             run.fail(idx, "panic", p.clone());
         }
         if let Ok(Ok(ids)) = &r {
-            for id in ids {
-                if !only_normal(id) {
-                    run.fail(idx, "archive-key-lets-traversal-through", format!("archive entry {seen:?} stored under {id:?}"));
+            for (st, id) in ids {
+                // a single plain name — or nothing at all, in an ingredient's store
+                let single = only_normal(id) && !id.contains('/');
+                if !(single || (st != "b" && id.is_empty())) {
+                    run.fail(idx, "archive-key-lets-traversal-through", format!("archive entry {seen:?} stored under {id:?} (store {st})"));
                 }
             }
         }
@@ -922,15 +1315,26 @@ fn archive_cases(run: &mut Run, rng: &mut Rng, top: &Path, n: u64) {
 
 fn export_cases(run: &mut Run, rng: &mut Rng, top: &Path, n: u64) {
     let d = top.join("exp");
+    // the destination folder sits deep inside the watched directory `d`, so that labels may climb
+    const PAD: &str = "e/e/e/e/e/e/e/e";
+    let dest_rel = format!("{PAD}/dest");
     for i in 0..n {
         let _ = fs::remove_dir_all(&d);
         fs::create_dir_all(d.join("out")).unwrap();
+        fs::create_dir_all(d.join(PAD)).unwrap();
         fs::write(d.join("out/s"), b"SENTINEL-s").unwrap();
-        let dest = d.join("dest");
+        let dest = d.join(&dest_rel);
         let tail = gen_path_string(rng);
         let label = match rng.below(6) {
             0 => format!("../{tail}"),
-            1 => (*rng.pick(&["x.bin", "..", ".", "a/b", "../../out/s", "/abs", "a\\b", "a:b"])).to_string(),
+            1 => {
+                if rng.chance(1, 9) {
+                    // absolute, but inside the watched directory
+                    format!("{}/out/abs", d.display())
+                } else {
+                    (*rng.pick(&["x.bin", "..", ".", "a/b", "../../out/s", "../../../../../../../../../../../out/s", "a\\b", "a:b"])).to_string()
+                }
+            }
             _ => tail,
         };
         if label.is_empty() {
@@ -938,6 +1342,13 @@ fn export_cases(run: &mut Run, rng: &mut Rng, top: &Path, n: u64) {
         }
         let data = format!("X{i}");
         let Ok((reader, claim)) = hk::reader_with_databox(&label, data.as_bytes()) else { continue };
+        // sandbox rule: what a check-free implementation would write stays inside `d`
+        let cl = claim.replace(':', "_");
+        let worst = [dest.join(format!("{cl}/c2pa.databoxes/{label}")), dest.join(&label), dest.join(format!("{cl}/{label}"))];
+        if !worst.iter().all(|w| stays_in(&d, &d, &bytes(w))) {
+            run.count("sandbox:export-skipped");
+            continue;
+        }
         let before = snapshot(&d);
         let r = guarded({
             let dest = dest.clone();
@@ -947,16 +1358,18 @@ fn export_cases(run: &mut Run, rng: &mut Rng, top: &Path, n: u64) {
         // what was created besides the two manifest files
         let mut created: Vec<Vec<u8>> = vec![];
         let mut outside: Vec<String> = vec![];
+        let dest_key = dest_rel.clone();
+        let dest_pre = format!("{dest_rel}/");
         for (k, n) in &after {
             if before.get(k) == Some(n) {
                 continue;
             }
             let ks = String::from_utf8_lossy(k).to_string();
-            if !(ks == "dest" || ks.starts_with("dest/")) {
+            if !(ks == dest_key || ks.starts_with(&dest_pre)) {
                 outside.push(ks);
             } else if let Node::File(c) = n {
                 if c == data.as_bytes() {
-                    created.push(k[5..].to_vec());
+                    created.push(k[dest_pre.len()..].to_vec());
                 }
             }
         }
@@ -992,12 +1405,14 @@ fn export_cases(run: &mut Run, rng: &mut Rng, top: &Path, n: u64) {
 }
 
 pub fn run(run: &mut Run, rng: &mut Rng) {
-    run.rule = "random trees (2–11 nodes besides root/ and out/; dirs, files, symlinks with absolute/relative/chained/looping/dangling/escaping targets) created for real; identifiers from a traversal grammar aimed at existing nodes and links; a file-system case is non-trivial when the identifier passes the syntactic front checks and contains `..` or goes through a symlink of the tree; a sanitize case when the input has `..`, a backslash or a leading `/`; distinct by (tree, configuration, op, identifier)".to_string();
+    run.rule = "random trees (2–11 nodes besides root/ and out/; dirs, files, symlinks with absolute/relative/chained/looping/dangling/escaping targets) created for real; identifiers from a traversal grammar aimed at existing nodes and links; a file-system case is non-trivial when the identifier passes the syntactic front checks and contains `..` or goes through a symlink of the tree; a to_folder case when a symbolic link sits where to_folder writes; a sanitize case when the input has `..`, a backslash or a leading `/`; an archive case when the entry name has `..` or a backslash; distinct by (tree, configuration, op, identifier); every case obeys the sandbox rule (a check-free implementation would stay inside the case area)".to_string();
     let top = fs::canonicalize(scratch("c29")).expect("scratch");
     let trees = if run.thorough() { 8000 } else { 1000 };
     let pure = if run.thorough() { 200_000 } else { 12_000 };
 
     f7_replay(run, &top);
+    leak_replay(run, &top);
+    tofolder_replay(run, &top);
     pure_cases(run, rng, pure);
     archive_cases(run, rng, &top, if run.thorough() { 6000 } else { 600 });
     export_cases(run, rng, &top, if run.thorough() { 6000 } else { 600 });
